@@ -209,9 +209,9 @@ func newCrashRun(w *world, g *durable) *crashRun {
 	}
 	// genesis reference
 	gd := simdb.NewDiskFromImage(g.img, "")
-	st, _, err := durableState(gd, w.isTrie, 0)
+	st, res0, err := durableState(gd, w.isTrie, 0)
 	if err == nil {
-		ref := &heightRef{}
+		ref := &heightRef{trieRoot: res0.TrieRoot.Hex()}
 		ref.bal, ref.nonce = r.readLedger(st)
 		if s0, err := cs.LoadStatus(gd.DB(simnode.DBStatus)); err == nil {
 			ref.status = s0.Bytes()
